@@ -277,8 +277,6 @@ def check(case, ctx):
         ref, info = R.interpret(cmds)
     except R.PathSyntaxError as e:
         ctx.discard('ungrammatical: ' + str(e)[:30])
-    if info.get('arc_with_coincident_endpoints'):
-        ctx.discard('arc with coincident end points (constructor precondition)')
     for s in ref:
         for v in s[1:]:
             if isinstance(v, complex) and not (abs(v.real) < 1e300 and abs(v.imag) < 1e300):
